@@ -163,6 +163,11 @@ func runC05(c *Ctx) {
 			return ""
 		}
 		words := strings.Split(got, ref.Sep(l))
+		if len(words) != len(e)/4*3 {
+			c.Violate(fmt.Sprintf("decode:%s:%d", hx(e), l),
+				fmt.Sprintf("mnemonic %q of entropy %s (%s) has %d words, want %d", got, hx(e), ref.LangNames[l], len(words), len(e)/4*3), encodeCase(e, l))
+			return got
+		}
 		dec, _, bad := c.M.Decode(words, l)
 		if bad >= 0 || !bytes.Equal(dec, e) {
 			c.Violate(fmt.Sprintf("decode:%s:%d", hx(e), l),
